@@ -518,6 +518,8 @@ def r01_4e_flatten_traces(ctx):
     ctx.analysed(f.fq)
     shapes = {k: v for k, v in GRAPHS.items()}
     shapes["conditional whose arms are both far away"] = {"c": (["int 1"], ["t", "e"]), "m": (["int 9", "return_"], []), "t": (["int 2", "return_"], []), "e": (["int 3", "return_"], [])}
+    shapes["both arms to the same block, not the next one"] = {"c0": (["int 0"], ["c", "x"]), "c": (["int 1"], ["j", "j"]), "x": (["int 9", "return_"], []), "j": (["int 1", "return_"], [])}
+    shapes["empty then-arm at the end of a loop body"] = {"h": (["int 1"], ["b", "x"]), "b": (["int 5", "pop", "int 2"], ["h", "h"]), "x": (["int 1", "return_"], [])}
     shapes["loop with continue from a nested if"] = {"i": (["int 0", "store 1"], ["h"]), "h": (["load 1"], ["a", "x"]), "a": (["int 5"], ["b", "st"]), "b": (["int 6"], ["st", "w"]), "w": (["int 7", "pop"], ["st"]), "st": (["load 1", "store 1"], ["h"]), "x": (["int 1", "return_"], [])}
     for name, spec in shapes.items():
         names = list(spec)
